@@ -60,7 +60,15 @@ struct Tag {
         g_live.fetch_sub(1, std::memory_order_relaxed);
     }
 };
-struct Elem { int key; Tag tag; Elem(int k, int u) : key(k), tag(u, k) {} };
+// Moving an Elem leaves the source with a key no scenario uses (like a moved-from std::string): a library that looks at the caller's object
+// again after it has moved it into a node compares with the wrong key (concurrent_unordered_set did, after a failed CAS: repaired by f8fa62f).
+static const int MOVED_FROM_KEY = -1000003;
+struct Elem {
+    int key; Tag tag;
+    Elem(int k, int u) : key(k), tag(u, k) {}
+    Elem(const Elem&) = default;
+    Elem(Elem&& o) noexcept : key(o.key), tag(std::move(o.tag)) { o.key = MOVED_FROM_KEY; }
+};
 using MapVal = std::pair<const int, Tag>;
 static inline int v_key(const Elem& e) { return e.key; }
 static inline const Tag& v_tag(const Elem& e) { return e.tag; }
